@@ -101,9 +101,12 @@ def coq_eval(cases_obs, want_sem=True):
         prog = lang.coq_program(obs['program'])
         b = 'Eval vm_compute in (compile_case %s).\n' % case.coq
         b += 'Eval vm_compute in (load_case %s).\n' % prog
-        b += 'Eval vm_compute in (vm_case %d %s %s).\n' % (VM_FUEL, prog, w)
+        # a script the implementation did not finish within its step budget is not run in the models either
+        # (nothing to compare; deep recursion is very slow under vm_compute): compiler and loader are still compared
+        long_run = obs.get('status') == 'FUEL'
+        b += 'Eval vm_compute in (vm_case %d %s %s).\n' % (10 if long_run else VM_FUEL, prog, w)
         if want_sem:
-            b += 'Eval vm_compute in (sem_case %d %s %s).\n' % (SEM_FUEL, case.coq, w)
+            b += 'Eval vm_compute in (sem_case %d %s %s).\n' % (3 if long_run else SEM_FUEL, case.coq, w)
         bodies.append(b)
         idxs.append(i)
     per = 4 if want_sem else 3
